@@ -1294,3 +1294,12 @@ def m_peekable_peek(ex, c, args, m):
     if x is sent: it.g = iter(()); return none()
     it.g = itertools.chain([x], it.g)
     cell = {'v': x}; return some(Ref(cell, 'v'))
+
+@M.add(r' as Iterator>::partition::<(Vec|SmallVec)<')
+def m_partition(ex, c, args, m):
+    yes, no = [], []
+    for x in as_it(ex, args[0]):
+        cell = {'x': x}
+        (yes if truth(ex, call_fn(ex, args[1], [Ref(cell, 'x')])) else no).append(x)
+    mk = VecVal if m.group(1) == 'Vec' else SVec
+    return tup(mk(yes), mk(no))
